@@ -703,22 +703,23 @@ class Check:
             for pw in ("pw", None):
                 for dur in (0, 1):
                     specs.append({"name": f"script-{topo}-{pw}-{dur}", "kind": "script", "topo": topo, "pw": pw, "dur": dur})
-        depth = 2 if quick else 3
+        # words of length 3 (quick; thorough: routed) or 4 (thorough: lan) over the reduced alphabet, chunked by their first op(s)
         for topo in ("lan", "routed"):
+            deep = (not quick) and topo == "lan"
             for first in range(len(REDUCED)):
                 if topo == "lan" and REDUCED[first][0] == "acl":
                     continue
-                if quick:
-                    specs.append({"name": f"exh{depth + 1}-{topo}-{first}", "kind": "exh", "topo": topo, "pw": "pw", "first": first, "depth": depth + 1})
-                else:
-                    for second in range(len(REDUCED)):
-                        if topo == "lan" and REDUCED[second][0] == "acl":
-                            continue
-                        specs.append({"name": f"exh{depth + 1}-{topo}-{first}-{second}", "kind": "exh", "topo": topo, "pw": "pw", "first": first,
-                                      "second": second, "depth": depth + 1})
-        nrand = 64 if quick else 192
+                if not deep:
+                    specs.append({"name": f"exh3-{topo}-{first}", "kind": "exh", "topo": topo, "pw": "pw", "first": first, "depth": 3})
+                    continue
+                for second in range(len(REDUCED)):
+                    if REDUCED[second][0] == "acl":
+                        continue
+                    specs.append({"name": f"exh4-{topo}-{first}-{second}", "kind": "exh", "topo": topo, "pw": "pw", "first": first,
+                                  "second": second, "depth": 4})
+        nrand = 48 if quick else 192
         for s in range(nrand):
-            specs.append({"name": f"rand-{seed * 1000 + s}", "kind": "rand", "seed": seed * 1000 + s, "n": 40 if quick else 60, "len": 45})
+            specs.append({"name": f"rand-{seed * 1000 + s}", "kind": "rand", "seed": seed * 1000 + s, "n": 32 if quick else 60, "len": 45})
         return specs
 
     def run_case(self, spec):
